@@ -20,6 +20,106 @@ fn usage() -> ! {
     std::process::exit(3);
 }
 
+/// Second pass in the build profile WITHOUT debug assertions and overflow checks (`[profile.plain]`,
+/// built by ./check next to the monitored build; path in BACON_VERIF_PLAIN). The same monitors run in a
+/// child process over the complete quick tier; a violation observed
+/// there is a violation of the property in the profile downstream users ship. Returns the evidence
+/// block, or an error text (harness error / inconclusive, never a verdict).
+fn plain_pass(id: &str, ctx: &Ctx, rep: &mut report::Report) -> Result<json::J, String> {
+    use json::J;
+    let bin = match std::env::var("BACON_VERIF_PLAIN") {
+        Ok(b) if !b.is_empty() => b,
+        _ => return Ok(J::obj().set("run", false).set("why", "BACON_VERIF_PLAIN not set (binary started without ./check)")),
+    };
+    if !std::path::Path::new(&bin).exists() {
+        return Err(format!("plain-profile binary {} does not exist", bin));
+    }
+    let out = format!("{}/plain-out/{}", ctx.base, id);
+    let _ = std::fs::remove_dir_all(&out);
+    std::fs::create_dir_all(&out).map_err(|e| format!("cannot create {}: {}", out, e))?;
+    if let Ok(k) = std::fs::read(format!("{}/known_findings.json", ctx.base)) {
+        let _ = std::fs::write(format!("{}/known_findings.json", out), k);
+    }
+    let log = std::fs::File::create(format!("{}/log.txt", out)).map_err(|e| e.to_string())?;
+    let log2 = log.try_clone().map_err(|e| e.to_string())?;
+    let t0 = Instant::now();
+    let mut child = std::process::Command::new(&bin)
+        .args(["check", id, "--tier", "quick", "--seed", &ctx.seed.to_string(), "--stride", "1", "--threads", &ctx.threads.to_string()])
+        .env("VERIF_DIR", &out)
+        .env("BACON_VERIF_PROFILE", "plain")
+        .env_remove("BACON_VERIF_PLAIN")
+        .stdout(log)
+        .stderr(log2)
+        .spawn()
+        .map_err(|e| format!("cannot start {}: {}", bin, e))?;
+    // generous wall-clock watchdog; its firing is inconclusive, never a violation
+    let limit = Duration::from_secs(1800);
+    let status = loop {
+        match child.try_wait() {
+            Ok(Some(st)) => break st,
+            Ok(None) => {
+                if t0.elapsed() > limit {
+                    let _ = child.kill();
+                    let _ = child.wait();
+                    rep.inconclusive("plain-profile-child-timeout");
+                    return Ok(J::obj().set("run", true).set("timed_out", true));
+                }
+                std::thread::sleep(Duration::from_millis(50));
+            }
+            Err(e) => return Err(format!("waiting for the plain-profile child: {}", e)),
+        }
+    };
+    let code = status.code().unwrap_or(-1);
+    if code != 0 && code != 1 && code != 2 {
+        return Err(format!("plain-profile child ended with status {} (log: {}/log.txt)", code, out));
+    }
+    let ev_src = std::fs::read_to_string(format!("{}/evidence/{}.json", out, id)).map_err(|e| format!("plain-profile child wrote no evidence: {}", e))?;
+    let ev = json::parse(&ev_src).map_err(|e| format!("plain-profile evidence: {}", e))?;
+    let cov = ev.get("coverage").cloned().unwrap_or(J::obj());
+    let evals = cov.get("evaluations").and_then(|v| v.as_i64()).unwrap_or(0);
+    let nviol = ev.get("violations").and_then(|v| v.as_i64()).unwrap_or(0);
+    rep.count("plain_profile/evaluations", evals);
+    // every stored witness of the child becomes a violation of this run (signature prefixed)
+    let mut files: Vec<_> = std::fs::read_dir(format!("{}/replay", out)).map(|d| d.filter_map(|e| e.ok()).map(|e| e.path()).collect()).unwrap_or_default();
+    files.sort();
+    let mut stored = 0;
+    for (n, f) in files.iter().enumerate() {
+        if let Ok(src) = std::fs::read_to_string(f) {
+            if let Ok(j) = json::parse(&src) {
+                let sig = j.get("signature").and_then(|v| v.as_str()).unwrap_or("?").to_string();
+                let detail = j.get("detail").and_then(|v| v.as_str()).unwrap_or("").to_string();
+                rep.cur_stage = "plain-profile".to_string();
+                rep.cur_index = n as u64;
+                rep.violation(&format!("plain-profile/{}", sig), j, format!("in the build without debug assertions and overflow checks: {}", detail));
+                stored += 1;
+            }
+        }
+    }
+    if nviol > 0 && stored == 0 {
+        return Err(format!("plain-profile child reported {} violation(s) but stored no witness (log: {}/log.txt)", nviol, out));
+    }
+    let mut viol_counters = J::obj();
+    if let Some(J::Obj(cs)) = cov.get("counters") {
+        for (k, v) in cs {
+            if k.starts_with("violations/") {
+                viol_counters.put(k, v.clone());
+            }
+        }
+    }
+    Ok(J::obj()
+        .set("run", true)
+        .set("profile", "release, debug-assertions off, overflow-checks off")
+        .set("tier", "quick")
+        .set("stride_in_large_stages", 1)
+        .set("evaluations", evals)
+        .set("distinct_nontrivial", cov.get("distinct_nontrivial").cloned().unwrap_or(J::from(0)))
+        .set("violations", nviol)
+        .set("known_findings_matched", cov.get("known_findings_matched").cloned().unwrap_or(J::from(0)))
+        .set("violation_counters", viol_counters)
+        .set("child_exit", code as i64)
+        .set("wall_s", t0.elapsed().as_secs_f64()))
+}
+
 fn run_check(id: &str, ctx: &Ctx) -> i32 {
     let defs = checks::all();
     let def = match defs.iter().find(|d| d.id == id) {
@@ -33,10 +133,29 @@ fn run_check(id: &str, ctx: &Ctx) -> i32 {
     let meta = (def.meta)();
     let stages = (def.stages)(ctx);
     let watchdog = Duration::from_secs(ctx.tier.pick(90, 300));
-    let (rep, stuck) = report::run_stages(ctx, stages, watchdog);
-    let thresholds = (def.thresholds)(ctx, &rep);
+    let (mut rep, stuck) = report::run_stages(ctx, stages, watchdog);
+    let mut thresholds = (def.thresholds)(ctx, &rep);
+    let mut extra = json::J::obj();
+    let is_child = std::env::var("BACON_VERIF_PROFILE").ok().as_deref() == Some("plain");
+    if is_child {
+        extra.put("build_profile", "plain");
+    } else if ctx.only.is_none() && stuck.is_empty() {
+        match plain_pass(id, ctx, &mut rep) {
+            Ok(j) => {
+                if j.get("run") == Some(&json::J::Bool(true)) {
+                    thresholds.push(report::Threshold {
+                        what: "executions observed in the build profile without debug assertions".to_string(),
+                        required: 1.0,
+                        observed: rep.counter("plain_profile/evaluations") as f64,
+                    });
+                }
+                extra.put("plain_profile", j);
+            }
+            Err(e) => rep.harness_errors.push(e),
+        }
+    }
     let wall = t0.elapsed().as_secs_f64();
-    report::finalize(ctx, &meta, rep, stuck, thresholds, wall, json::J::obj())
+    report::finalize(ctx, &meta, rep, stuck, thresholds, wall, extra)
 }
 
 fn main() {
@@ -76,6 +195,7 @@ fn main() {
             };
             let mut seed = env_seed.unwrap_or(1);
             let mut threads = threads_default;
+            let mut stride: u64 = 1;
             let mut i = 3;
             while i < args.len() {
                 match args[i].as_str() {
@@ -91,11 +211,15 @@ fn main() {
                         threads = args.get(i + 1).and_then(|s| s.parse().ok()).unwrap_or(threads);
                         i += 1;
                     }
+                    "--stride" => {
+                        stride = args.get(i + 1).and_then(|s| s.parse().ok()).unwrap_or(1);
+                        i += 1;
+                    }
                     _ => usage(),
                 }
                 i += 1;
             }
-            let ctx = Ctx { tier, seed, threads, base, only: None };
+            let ctx = Ctx { tier, seed, threads, base, only: None, stride };
             std::process::exit(run_check(&id, &ctx));
         }
         "replay" => {
@@ -115,8 +239,22 @@ fn main() {
             let seed = j.get("seed").and_then(|v| v.as_i64()).unwrap_or(1) as u64;
             let stage = j.get("stage").and_then(|v| v.as_str()).unwrap_or("").to_string();
             let index = j.get("index").and_then(|v| v.as_i64()).unwrap_or(0) as u64;
+            if stage == "plain-profile" {
+                // witness of the second pass: the stored case is the child's own replay file; hand it to
+                // the binary of that build profile
+                let bin = std::env::var("BACON_VERIF_PLAIN").unwrap_or_default();
+                let inner = j.get("case").cloned().unwrap_or(json::J::obj());
+                let tmp = format!("{}/plain-out/replay-inner.json", base);
+                let _ = std::fs::create_dir_all(format!("{}/plain-out", base));
+                if bin.is_empty() || std::fs::write(&tmp, inner.to_string_pretty()).is_err() {
+                    eprintln!("cannot replay a plain-profile witness: BACON_VERIF_PLAIN not set (use ./check --replay) or {} not writable", tmp);
+                    std::process::exit(3);
+                }
+                let st = std::process::Command::new(&bin).args(["replay", &tmp]).env("BACON_VERIF_PROFILE", "plain").env_remove("BACON_VERIF_PLAIN").status();
+                std::process::exit(st.ok().and_then(|s| s.code()).unwrap_or(3));
+            }
             println!("replaying property={} tier={} seed={} stage={} case={}", id, tier.name(), seed, stage, index);
-            let ctx = Ctx { tier, seed, threads: 1, base, only: Some((stage, index)) };
+            let ctx = Ctx { tier, seed, threads: 1, base, only: Some((stage, index)), stride: 1 };
             std::process::exit(run_check(&id, &ctx));
         }
         _ => usage(),
